@@ -4,6 +4,8 @@
    * the WebVTT file / cue-text GRAMMAR as data (vfile, cue, cnode) and its PRINTER (print_file …);
    * the meaning of a cue's text as a list of styled, timed RUNS (runs_cue): which characters are shown,
      with which of bold / italic / underline / class colours / language / ruby role, from which time on;
+     this includes what the cue text parsing rules (6.4) say about end tags that close nothing and about elements
+     whose end tag is missing (CEnd, COpen, CRubyOmit and the side condition cue_text_valid);
    * the meaning of a timestamp (ts_ms) and of cue settings as far as the property states it (region_ok):
      region inside the root container, non-negative extent, writing mode, text alignment, display
      alignment and - for horizontal cues - the edge of the region the `line` setting fixes.
@@ -42,7 +44,14 @@ Inductive cnode :=
 | CRef (r : cref)                                    (* character reference *)
 | CTs (t : tstamp)                                   (* <hh:mm:ss.ttt> *)
 | CTag (k : ctag) (cs : list cnode)                  (* <b>…</b> etc. *)
-| CRuby (segs : list (list cnode * list cnode)).     (* <ruby> base <rt> text </rt> … </ruby> *)
+| CRuby (segs : list (list cnode * list cnode))      (* <ruby> base <rt> text </rt> … </ruby> *)
+(* WebVTT 6.4, cue text parsing rules, end tag token: "if the tag name is that of the current node (c / i / b / u / ruby /
+   rt / v / lang for a class / italic / bold / underline / ruby / ruby text / voice / language object), let current be
+   its parent; otherwise, if the tag name is ruby and current is a ruby text object, let current be the parent of its
+   parent; otherwise ignore the token."  At the end of the cue text every element that is still open ends.  Hence: *)
+| CEnd (name : text)                                 (* </name> that does not name the innermost open element: ignored *)
+| COpen (k : ctag) (cs : list cnode)                 (* <b>… whose end tag is missing: it lasts to the end of the cue text *)
+| CRubyOmit (segs : list (list cnode * list cnode)). (* a ruby whose last </rt> is omitted: </ruby> ends the ruby text too *)
 
 (* ---- printer *)
 Definition escape_char (c : Z) : text :=
@@ -86,6 +95,15 @@ Definition print_open (k : ctag) : text :=
   end ++ [62].
 Definition print_close (k : ctag) : text := [60;47] ++ tag_name k ++ [62].
 
+(* base <rt> text </rt> … base <rt> text   (the last </rt> omitted); pn prints a list of nodes *)
+Definition print_segs_omit (pn : list cnode -> text) : list (list cnode * list cnode) -> text :=
+  fix go (sg : list (list cnode * list cnode)) : text :=
+    match sg with
+    | [] => []
+    | seg :: sg' =>
+      pn (fst seg) ++ [60;114;116;62] ++ pn (snd seg) ++
+      match sg' with [] => [] | _ => [60;47;114;116;62] ++ go sg' end
+    end.
 Fixpoint print_node (n : cnode) : text :=
   match n with
   | CText t => escape t
@@ -97,8 +115,54 @@ Fixpoint print_node (n : cnode) : text :=
     flat_map (fun seg : list cnode * list cnode =>
                 flat_map print_node (fst seg) ++ [60;114;116;62] ++ flat_map print_node (snd seg) ++ [60;47;114;116;62]) segs ++
     [60;47;114;117;98;121;62]
+  | CEnd name => [60;47] ++ name ++ [62]
+  | COpen k cs => print_open k ++ flat_map print_node cs
+  | CRubyOmit segs => [60;114;117;98;121;62] ++ print_segs_omit (flat_map print_node) segs ++ [60;47;114;117;98;121;62]
   end.
 Definition print_cue_text (ns : list cnode) : text := flat_map print_node ns.
+
+(* ---- when a derivation describes its printed text (side condition of the parsing rules quoted above)
+   * a CEnd directly inside an element must not name it (it would end it); directly inside a ruby text it must not be
+     </ruby> either (that ends the ruby); at the top level of the cue every end tag is ignored; no name holds `>` or LF;
+   * an element whose end tag is missing stays the current node to the end of the cue text: COpen may only be the last
+     node of the cue text or of another COpen (inside a closed element, the end tag of that element would be ignored);
+   * a ruby with its last </rt> omitted has at least one base / text pair. *)
+Inductive ctx := XTop | XTag (name : text) | XBase | XRt.
+Definition nm_ruby : text := [114;117;98;121].
+Definition nm_rt : text := [114;116].
+Definition end_ignored (c : ctx) (name : text) : bool :=
+  forallb (fun ch => negb (ch =? 62) && negb (ch =? 10)) name &&
+  match c with
+  | XTop => true
+  | XTag n => negb (text_eqb name n)
+  | XBase => negb (text_eqb name nm_ruby)
+  | XRt => negb (text_eqb name nm_rt) && negb (text_eqb name nm_ruby)
+  end.
+Fixpoint node_valid (c : ctx) (may_open : bool) (n : cnode) {struct n} : bool :=
+  let fix go (c : ctx) (may_open : bool) (ns : list cnode) {struct ns} : bool :=
+    match ns with
+    | [] => true
+    | n :: ns' => node_valid c (may_open && match ns' with [] => true | _ => false end) n && go c may_open ns'
+    end in
+  let fix segs_valid (sg : list (list cnode * list cnode)) {struct sg} : bool :=
+    match sg with
+    | [] => true
+    | seg :: sg' => go XBase false (fst seg) && go XRt false (snd seg) && segs_valid sg'
+    end in
+  match n with
+  | CText _ | CRef _ | CTs _ => true
+  | CTag k cs => go (XTag (tag_name k)) false cs
+  | CRuby segs => segs_valid segs
+  | CEnd name => end_ignored c name
+  | COpen k cs => may_open && go (XTag (tag_name k)) true cs
+  | CRubyOmit segs => match segs with [] => false | _ => segs_valid segs end
+  end.
+Fixpoint nodes_valid (c : ctx) (may_open : bool) (ns : list cnode) : bool :=
+  match ns with
+  | [] => true
+  | n :: ns' => node_valid c (may_open && match ns' with [] => true | _ => false end) n && nodes_valid c may_open ns'
+  end.
+Definition cue_text_valid (ns : list cnode) : bool := nodes_valid XTop true ns.
 
 (* ---- meaning: styled, timed runs *)
 Inductive role := RolePlain | RoleBase | RoleRt.
@@ -186,6 +250,18 @@ Fixpoint runs_node (s : style) (now : option Z) (n : cnode) {struct n} : list ru
   | CTs t => ([], Some (ts_ms t))
   | CTag k cs => go (apply_tag k s) now cs
   | CRuby segs =>
+    (fix go_segs (now : option Z) (sg : list (list cnode * list cnode)) {struct sg} : list run * option Z :=
+       match sg with
+       | [] => ([], now)
+       | (base, rt) :: sg' =>
+         let '(rb, nowb) := go (with_role RoleBase s) now base in
+         let '(rr, nowr) := go (with_role RoleRt s) nowb rt in
+         let '(rest, nowz) := go_segs nowr sg' in
+         (rb ++ rr ++ rest, nowz)
+       end) now segs
+  | CEnd _ => ([], now)                       (* an ignored end tag shows nothing and ends nothing *)
+  | COpen k cs => go (apply_tag k s) now cs   (* the element lasts to the end of the text, where its content ends *)
+  | CRubyOmit segs =>
     (fix go_segs (now : option Z) (sg : list (list cnode * list cnode)) {struct sg} : list run * option Z :=
        match sg with
        | [] => ([], now)
